@@ -446,3 +446,106 @@ def _space_lemmas(k, sp_t, lay, im, indexer_t):
         lemma2 = _forall([j] + S, body2, patterns=[z3.MultiPattern(ids.get((j,)), indexer_t.get(tuple(S)))])
         ctx.prove("lemma:a-row-of-a-state's-segment-belongs-to-that-state", lemma2, "lemma")
         ctx.assume(lemma2, tag="lemma")
+
+
+@contract("lcm.solve_brute.solve", props=("C01", "C05", "C06", "C11"), scope="forall")
+def solve_loop_contract(k):
+    """(statement of C01/C05) for EVERY number of periods T >= 1: the result is a list of T arrays in
+    chronological order with V[T-1] = E_{T-1}(CCV_{T-1}(no continuation)) and V[t] = E_t(CCV_t(V[t+1])),
+    where CCV_t / E_t are the continuous-problem solution and the discrete-problem calculator of period t
+    applied to the t-th elements of every per-period list and to the params of the call.
+    Proved with an inductive invariant of the backward loop."""
+    if k.mode == "native":
+        return _solve_loop_native(k)
+    import logging
+
+    import z3
+
+    from pyvc.loops import LoopSpec
+    from pyvc.symseq import NONE, Obj, Opaque, SymList, SymSeq, to_obj
+    from pyvc.values import T as Term
+
+    n = k.int("n_periods", ge=1, size=True)
+    nz = n.e if hasattr(n, "e") else z3.IntVal(int(n))
+    lists = {nm: SymList(nm, n) for nm in ("state_choice_spaces", "state_indexers", "continuous_choice_grids", "compute_ccv_functions", "emax_calculators")}
+    params = Opaque(z3.Const("params", Obj))
+    CCV = z3.Function("solve_continuous_problem", *([Obj] * 6), Obj)
+    qn_c = "lcm.solve_brute.solve_continuous_problem"
+
+    def ov_cont(clo, args, kwargs):
+        ba = clo._c.sig.bind(*args, **kwargs)
+        a = ba.arguments
+        return Opaque(CCV(*[to_obj(a[x]) for x in ("state_choice_space", "compute_ccv", "continuous_choice_grids", "vf_arr", "state_indexers", "params")]))
+
+    APPLY = z3.Function("apply2!params", Obj, Obj, Obj, Obj)  # emax(ccv, params=params) as built by Opaque.__call__
+    el = lambda nm, t: lists[nm].f(t)
+    step = lambda t, vnext: APPLY(el("emax_calculators", t), CCV(el("state_choice_spaces", t), el("compute_ccv_functions", t), el("continuous_choice_grids", t), vnext, el("state_indexers", t), params.term), params.term)
+    V = z3.Function("V.spec", z3.IntSort(), Obj)
+    t = z3.Int("t.spec")
+    from pyvc.ctx import cur
+
+    ctx = cur()
+    ctx.assume(V(nz - 1) == step(nz - 1, NONE), tag="spec")
+    ctx.assume(z3.ForAll([t], z3.Implies(z3.And(t >= 0, t < nz - 1), V(t) == step(t, V(t + 1))), patterns=[V(t)]), tag="spec")
+
+    def as_seq(v):
+        return v if isinstance(v, SymSeq) else SymSeq.of_list(v)
+
+    def havoc(kk):
+        return {"reversed_solution": SymSeq.fresh("reversed_solution"), "vf_arr": Opaque(z3.Const(ctx.fresh("vf_arr"), Obj))}
+
+    def inv(kk, vals):
+        rs = as_seq(vals["reversed_solution"])
+        j = z3.Int(ctx.fresh("j"))
+        vf = to_obj(vals["vf_arr"])
+        return z3.And(
+            rs.length == kk,
+            z3.ForAll([j], z3.Implies(z3.And(j >= 0, j < kk), rs.get(j) == V(nz - 1 - j))),
+            z3.Implies(kk == 0, vf == NONE),
+            z3.Implies(kk > 0, vf == V(nz - kk)),
+        )
+
+    world = k.world
+    world.loop_specs[("lcm.solve_brute.solve", 0)] = LoopSpec(["reversed_solution", "vf_arr"], havoc, inv)
+    old = world.overrides.get(qn_c)
+    world.overrides[qn_c] = ov_cont
+    try:
+        out = k.call(params=params, logger=logging.getLogger("pyvc.solve"), **lists)
+    finally:
+        world.loop_specs.pop(("lcm.solve_brute.solve", 0), None)
+        if old is None:
+            world.overrides.pop(qn_c, None)
+        else:
+            world.overrides[qn_c] = old
+    if isinstance(out, Raised):
+        k.fail("no-exception", repr(out))
+        return
+    k.ensures("result-is-a-list", isinstance(out, SymSeq))
+    if not isinstance(out, SymSeq):
+        return
+    k.ensures("one-array-per-period", Term(out.length == nz))
+    tt = z3.Int("t.goal")
+    k.ensures("chronological-order-and-bellman-recursion", Term(z3.ForAll([tt], z3.Implies(z3.And(tt >= 0, tt < nz), out.get(tt) == V(tt)))))
+
+
+def _solve_loop_native(k):
+    """the same recursion on the real function with recording stand-ins for the per-period objects"""
+    import logging
+
+    T = k.int("n_periods", ge=1, le=4, size=True)
+    mod = k.native.module("lcm.solve_brute")
+    real_cont = mod.solve_continuous_problem
+    mod.solve_continuous_problem = lambda **kw: ("ccv", kw["state_choice_space"], kw["compute_ccv"], kw["continuous_choice_grids"], kw["vf_arr"], kw["state_indexers"], kw["params"])
+    try:
+        lists = {nm: [f"{nm}[{t}]" for t in range(T)] for nm in ("state_choice_spaces", "state_indexers", "continuous_choice_grids", "compute_ccv_functions")}
+        emax = [(lambda t: (lambda ccv, params: ("V", t, ccv, params)))(t) for t in range(T)]
+        out = mod.solve(params="P", emax_calculators=emax, logger=logging.getLogger("pyvc.solve"), **lists)
+    finally:
+        mod.solve_continuous_problem = real_cont
+    want = [None] * T
+    nxt = None
+    for t in reversed(range(T)):
+        want[t] = ("V", t, ("ccv", f"state_choice_spaces[{t}]", f"compute_ccv_functions[{t}]", f"continuous_choice_grids[{t}]", nxt, f"state_indexers[{t}]", "P"), "P")
+        nxt = want[t]
+    k.ensures("one-array-per-period", len(out) == T)
+    k.ensures("chronological-order-and-bellman-recursion", list(out) == want)
